@@ -145,6 +145,25 @@ Theorem lookup_depends_only_on_current_graph : forall d ops ops' k f,
 Proof. exact lookup_depends_only_on_current_graph_l. Qed.
 Print Assumptions lookup_depends_only_on_current_graph.
 
+(* Several sources (format_from_files([f1, f2]), format_from_strings, \bibdata{a,b}, Parser.parse_files): one
+   reader accumulates the entries AND the wanted set across its sources, so reading the sources in order is
+   reading their concatenation -- in particular a cited child in an earlier source makes its parent in a later
+   source wanted *)
+Theorem multi_source_is_concatenation : forall wanted sources,
+  read_sources_state wanted sources = read_state wanted (concat sources).
+Proof. exact multi_source_is_concatenation_l. Qed.
+Print Assumptions multi_source_is_concatenation.
+
+(* hence the whole chain is kept and inherited values are seen, with children before parents ACROSS sources *)
+Theorem multi_source_chain_inherits : forall cits sources,
+  keys_distinct (concat sources) -> children_first (concat sources) ->
+  forall k e f, want_entry (Some cits) k = true -> ci_get (concat sources) k = Some e ->
+  exists k', ci_get (read_sources (Some cits) sources) k = Some (rekey k' e) /\
+             entry_find_field (Some (read_sources (Some cits) sources)) (rekey k' e) f
+             = entry_find_field (Some (concat sources)) e f.
+Proof. exact multi_source_chain_inherits_l. Qed.
+Print Assumptions multi_source_chain_inherits.
+
 (* sensitivity (why the two fix: commits matter): without the visited test the lookup of any
    field on  @misc{a, crossref = {a}}  exhausts every fuel (Python: RecursionError, F4) ... *)
 Theorem visited_test_needed : forall fuel,
@@ -236,3 +255,9 @@ Example history_example :
                        HDelField (s2l "m") (s2l "crossref"); HLookup (s2l "c") (s2l "x")]
   = [Some (Ok (Some (s2l "X"))); Some (Ok (Some (s2l "Y"))); Some (Ok (Some (s2l "own"))); Some (Ok None)].
 Proof. vm_compute. reflexivity. Qed.
+
+(* two sources: the cited child in the first, its uncited parent and grandparent in the second *)
+Example multi_source_example :
+  map fst (read_sources (Some [s2l "c"]) [[(s2l "c", fl_child)]; [(s2l "m", fl_mid); (s2l "t", fl_top)]]) = [s2l "c"; s2l "m"; s2l "t"] /\
+  concat [[(s2l "c", fl_child)]; [(s2l "m", fl_mid); (s2l "t", fl_top)]] = fl_good.
+Proof. vm_compute. split; reflexivity. Qed.
